@@ -605,10 +605,54 @@ func partC11(a *hcli.Args, rep *report.Report, univName string, u *schema.Univer
 					se.Class(fmt.Sprintf("ok:decode:declared=%v", declared > 0))
 				}
 			}
+			// a receiver that already holds a declared symbol (second document into the same value, or a
+			// repeated key inside one document) must still end as the unknown value
+			for f, doc := range map[string]string{"json": `"PURPLE"`, "header": "PURPLE"} {
+				rt := Reg[en]
+				ptr := reflect.New(rt)
+				ptr.Elem().SetInt(1)
+				err := safeCall(func() error {
+					r, e := newReader(f, doc)
+					if e != nil {
+						return e
+					}
+					return ptr.Interface().(restlicodec.Unmarshaler).UnmarshalRestLi(r)
+				})
+				se.Evaluations++
+				se.Transitions++
+				se.Traces++
+				cs := fmt.Sprintf("enum %s symbol PURPLE decoded into a receiver holding %s (%s)", en, t.Symbols[0], f)
+				if err == nil && ptr.Elem().Int() != 0 {
+					fail(se, "enum unknown-symbol-keeps-previous-value "+f, fmt.Sprintf("%s: the value is constant %d, want the unknown value", cs, ptr.Elem().Int()), cs)
+				} else {
+					se.Class("ok:decode:unknown-over-declared")
+				}
+			}
 			// a JSON number where a symbol is expected
 			if _, err := decodeDocInto(en, "json", "1"); err == nil {
 				fail(se, "enum json-number-accepted", fmt.Sprintf("enum %s: the JSON number 1 was accepted as a symbol", en), "enum json number")
 			}
+		}
+	}
+	// ---- a repeated key inside one document: the last occurrence decides; an unknown symbol after a
+	// declared one must leave the unknown value
+	if a.Shard == 0 {
+		for f, doc := range map[string]string{"json": `{"e":"GREEN","e":"TEAL"}`, "header": "(e:GREEN,e:TEAL)"} {
+			ptr, err := decodeDocInto("CEnum", f, doc)
+			se.Evaluations++
+			se.Transitions++
+			se.Traces++
+			cs := fmt.Sprintf("record CEnum document %s (%s)", doc, f)
+			if err == nil {
+				if got := ptr.Elem().FieldByName("E").Int(); got != 0 {
+					fail(se, "enum repeated-key-unknown-keeps-previous-value "+f, fmt.Sprintf("%s: field e is constant %d, want the unknown value (or an error)", cs, got), cs)
+					continue
+				}
+			} else if isPanic(err) {
+				fail(se, "enum decode-panic repeated-key "+f, fmt.Sprintf("%s: %v", cs, err), cs)
+				continue
+			}
+			se.Class("ok:decode:repeated-key")
 		}
 	}
 	// ---- partial updates
